@@ -36,7 +36,27 @@ RULE = ('request cases: raw PATH_INFO assembled from names of the served tree an
 
 ENC_SETS = [[], ['gzip'], ['gzip', 'br', 'bzip2', 'xz', 'compress']]
 ALL_ENCS = ['gzip', 'compress', 'bzip2', 'xz', 'br']
-PREFIXES = {'fs': 'static', 'pkg': 'assets/v 1'}
+PREFIXES = {'fs': 'static', 'pkg': 'assets/v 1', 'pkgslash': 'static', 'pkgroot': 's', 'pkgnested': 'static', 'rel': 'static'}
+# root kinds: filesystem root; package specs without / with trailing slash; the package ROOT (`pkg:`, empty docroot); a nested
+# directory; a root given relative to the package
+KIND_SPEC = {'pkg': '<PKG>:static', 'pkgslash': '<PKG>:static/', 'pkgroot': '<PKG>:', 'pkgnested': '<PKG>:static/sub'}
+KIND_DROOT = {'pkg': ['static'], 'pkgslash': ['static'], 'pkgroot': [], 'pkgnested': ['static', 'sub'], 'rel': ['static']}
+# asset overrides, in the order of the override_asset calls (the LAST call is consulted first): (to_override, override_with)
+OV_SETS = [
+    [],
+    [('<PKG>:static/', '<T>/ovdir/')],                                         # directory <- filesystem directory, trailing slash
+    [('<PKG>:static/', '<T>/ovdir')],                                          # … without trailing slash
+    [('<PKG>', '<T>/ovdir/')],                                                 # the whole package <- filesystem directory
+    [('<PKG>:static/', '<PKG2>:alt/')],                                        # directory <- package directory
+    [('<PKG>:static/file.txt', '<PKG2>:single.css')],                          # one file <- package file
+    [('<PKG>:static/file.txt', '<T>/ovdir/only-ov.txt')],                      # one file <- filesystem file
+    [('<PKG>:static/', '<T>/ovdir/'), ('<PKG>:static/', '<PKG2>:alt/')],       # several: most recent first, fall-through
+    [('<PKG>:', '<PKG2>:'), ('<PKG>:static/sub/', '<T>/ovdir/sub/')],          # whole package <- whole package, and a nested directory
+]
+OV_FILES = [('ovdir/file.txt', 333), ('ovdir/only-ov.txt', 90), ('ovdir/index.html', 140), ('ovdir/sub/a.css', 77), ('ovdir/sub/index.html', 88),
+            ('ovdir/static/file.txt', 99), ('ovdir/static/index.html', 98), ('ovdir/big.txt.gz', 60),
+            ('<PKG2>/alt/file.txt', 222), ('<PKG2>/alt/extra.txt', 91), ('<PKG2>/alt/sub/index.html', 92), ('<PKG2>/single.css', 93),
+            ('<PKG2>/static/passwd', 94)]
 INDEX = 'index.html'
 SENTINEL = b'SENTINEL-OUTSIDE-ROOT:'
 
@@ -101,8 +121,10 @@ class Tree:
         self.ts = ts
         self.T = os.path.realpath(tempfile.mkdtemp(prefix='c16_'))
         self.pkgname = 'c16pkg_%d_%d' % (os.getpid(), ts)
-        self.root = {'fs': self.T + '/site', 'pkg': self.T + '/' + self.pkgname + '/static'}
+        self.pkg2name = 'c16ovpkg_%d_%d' % (os.getpid(), ts)
         self.pkgdir = self.T + '/' + self.pkgname
+        self.root = {'fs': self.T + '/site', 'pkg': self.pkgdir + '/static', 'pkgslash': self.pkgdir + '/static', 'pkgroot': self.pkgdir,
+                     'pkgnested': self.pkgdir + '/static/sub', 'rel': self.pkgdir + '/static'}
         self.entries, self.by_body = {}, {}
         self.apps, self.views = {}, {}
         layout = tree_layout(ts)
@@ -119,10 +141,18 @@ class Tree:
                     head = ('[C16:%s:%s]' % (kind, p)).encode('utf-8')
                     self._file(full, head + bytes((i * 31 + len(head)) % 251 for i in range(max(0, size - len(head)))))
         for p in ('secret.txt', 'passwd', 'site2/secret.txt', 'site2/index.html', 'site.gz', 'site/../sitex',
-                  self.pkgname + '/secret.txt', self.pkgname + '/static2/secret.txt', self.pkgname + '/static.gz'):
+                  self.pkgname + '/secret.txt', self.pkgname + '/static2/secret.txt', self.pkgname + '/static.gz',
+                  'ovdir2/secret.txt', 'ovdirx', 'ovdir.gz', self.pkg2name + '/secret.txt', self.pkg2name + '/alt2/secret.txt', self.pkg2name + '/altx'):
             full = posixpath.normpath(self.T + '/' + p)
             os.makedirs(os.path.dirname(full), exist_ok=True)
             self._file(full, SENTINEL + p.encode() + b'\n' + b'x' * 40)
+        os.makedirs(self.T + '/' + self.pkg2name, exist_ok=True)
+        self._file(self.T + '/' + self.pkg2name + '/__init__.py', b'# c16 scratch package (override source)\n')
+        for p, size in OV_FILES:
+            full = self.T + '/' + p.replace('<PKG2>', self.pkg2name)
+            os.makedirs(os.path.dirname(full), exist_ok=True)
+            head = ('[C16:override:%s]' % p).encode('utf-8')
+            self._file(full, head + bytes((i * 17 + len(head)) % 251 for i in range(max(0, size - len(head)))))
         for dirpath, dirs, files in os.walk(self.T):
             self.entries[dirpath] = ('d', os.path.getsize(dirpath))
             for f in files:
@@ -147,7 +177,7 @@ class Tree:
         return {'op': 'fs', 'entries': [[codes(p), k == 'd', s] for p, (k, s) in sorted(self.entries.items())]}
 
     def expand(self, s, kind):
-        return s.replace('<T>', self.T).replace('<ROOT>', self.root[kind]).replace('<PKG>', self.pkgname)
+        return s.replace('<T>', self.T).replace('<ROOT>', self.root[kind]).replace('<PKG2>', self.pkg2name).replace('<PKG>', self.pkgname)
 
     def close(self):
         for a in self.apps.values():
@@ -157,7 +187,7 @@ class Tree:
             sys.path.remove(self.T)
         except ValueError:
             pass
-        for m in [m for m in sys.modules if m == self.pkgname or m.startswith(self.pkgname + '.')]:
+        for m in [m for m in sys.modules if m in (self.pkgname, self.pkg2name) or m.startswith(self.pkgname + '.')]:
             del sys.modules[m]
         shutil.rmtree(self.T, ignore_errors=True)
 
@@ -190,33 +220,48 @@ class Eater:
 
 
 def root_spec(tree, kind):
-    return tree.root['fs'] if kind == 'fs' else tree.pkgname + ':static'
+    if kind == 'fs':
+        return tree.root['fs']
+    if kind == 'rel':
+        return 'static'                             # relative to the package given to the Configurator / static_view
+    return KIND_SPEC[kind].replace('<PKG>', tree.pkgname)
 
 
-def get_app(tree, mount, kind, encs):
+def ov_pairs(tree, case):
+    """the override_asset calls of a case, expanded"""
+    X = lambda x: x.replace('<T>', tree.T).replace('<PKG2>', tree.pkg2name).replace('<PKG>', tree.pkgname)
+    return [(X(a), X(b)) for a, b in OV_SETS[case.get('ov', 0)]]
+
+
+def get_app(tree, mount, kind, encs, ov=0):
     """(wsgi app | None, static_view instance) for a configuration; built once per tree"""
-    key = (mount, kind, encs)
+    key = (mount, kind, encs, ov)
     if key in tree.apps:
         return tree.apps[key], tree.views[key]
     from pyramid.config import Configurator
     from pyramid.static import static_view
     ce = ENC_SETS[encs]
+    pkgmod = __import__(tree.pkgname) if kind == 'rel' else None
     if mount == 'sub':
-        cfg = Configurator()
+        cfg = Configurator(package=pkgmod) if pkgmod else Configurator()
         cfg.add_static_view(PREFIXES[kind], root_spec(tree, kind), content_encodings=ce)
         cfg.commit()
         view = [i['introspectable']['callable'] for i in cfg.registry.introspector.get_category('views')
                 if isinstance(i['introspectable']['callable'], static_view)][0]
-        app = cfg.make_wsgi_app()
     elif mount == 'plain':
         eater = Eater()
         cfg = Configurator(root_factory=lambda request: eater)
-        view = static_view(root_spec(tree, kind), use_subpath=False, content_encodings=ce)
+        view = static_view(root_spec(tree, kind), use_subpath=False, content_encodings=ce, package_name=tree.pkgname if kind == 'rel' else None)
         cfg.add_view(view)
-        app = cfg.make_wsgi_app()
     else:
-        view = static_view(root_spec(tree, kind), use_subpath=True, content_encodings=ce)
-        app = None
+        view = static_view(root_spec(tree, kind), use_subpath=True, content_encodings=ce, package_name=tree.pkgname if kind == 'rel' else None)
+        cfg = None
+    app = None
+    if cfg is not None:
+        for a, b in ov_pairs(tree, {'ov': ov}):
+            cfg.override_asset(to_override=a, override_with=b)
+            cfg.commit()
+        app = cfg.make_wsgi_app()
     tree.apps[key], tree.views[key] = app, view
     return app, view
 
@@ -259,6 +304,8 @@ def canon_exc(e):
         return {'out': 'urldecode'}
     if isinstance(e, UnicodeEncodeError):
         return {'out': 'unicodeencode'}
+    if isinstance(e, ValueError) and 'absolute path in a resource path' in str(e):
+        return {'out': 'valueerror'}
     if isinstance(e, IsADirectoryError):
         return {'out': 'isdir', 'path': e.filename if isinstance(e.filename, str) else None}
     return {'out': 'raised:' + type(e).__name__, 'msg': str(e)[:120]}
@@ -266,7 +313,7 @@ def canon_exc(e):
 
 def impl(case):
     tree = get_tree(case['tree'])
-    app, view = get_app(tree, case['mount'], case['kind'], case['encs'])
+    app, view = get_app(tree, case['mount'], case['kind'], case['encs'], case.get('ov', 0))
     try:
         if case['mount'] == 'direct':
             from pyramid.request import Request
@@ -360,38 +407,109 @@ def normalise(text):
     return out
 
 
+def ov_declared(tree, case):
+    """(directories, files) the overrides of the case were declared with — only a package-relative view sees them"""
+    dirs, files = [], []
+    if case['kind'] == 'fs':
+        return dirs, files
+    for a, b in ov_pairs(tree, case):
+        path = a.split(':', 1)[1] if ':' in a else ''
+        target = b.rstrip('/') if b.startswith('/') else (tree.T + '/' + b.replace(':', '/', 1)).rstrip('/')
+        (dirs if path == '' or path.endswith('/') else files).append(target)
+    return dirs, files
+
+
+def ov_resolve(tree, case, parts):
+    """the OS path that `parts` (components below the view's root) designate: the most recent override declared for it in
+    which it exists, else the root's own (written from the documentation of override_asset, not from the model)"""
+    own = tree.root[case['kind']] + ''.join('/' + x for x in parts)
+    if case['kind'] == 'fs' or not case.get('ov'):
+        return own
+    name = '/'.join(KIND_DROOT[case['kind']] + list(parts))
+    for a, b in reversed(ov_pairs(tree, case)):
+        path = a.split(':', 1)[1] if ':' in a else ''
+        src = b.rstrip('/') if b.startswith('/') else (tree.T + '/' + b.replace(':', '/', 1)).rstrip('/')
+        if path == '' or path.endswith('/'):
+            if not name.startswith(path):
+                continue
+            rest = name[len(path):]
+            cand = src + ('/' + rest if rest else '')
+        else:
+            if name != path:
+                continue
+            cand = src
+        if cand in tree.entries:
+            return cand
+    return own
+
+
 def designate(tree, case, segs, slash):
     """what the property demands for a proper tuple: ('redirect',) | ('serve', acceptable [(path, enc)], directories)"""
-    root = tree.root[case['kind']]
-    d = root + ''.join('/' + s for s in segs)
+    d = ov_resolve(tree, case, segs)
     if tree.isdir(d):
         if not slash:
             return ('redirect',)
-        target = d + '/' + INDEX
+        tparts = list(segs) + [INDEX]
     else:
-        target = d
+        tparts = list(segs)
     parsed = parse_accept_encoding(case.get('ae'))
-    cands = [(target, None)]
+    cands = [(ov_resolve(tree, case, tparts), None)]
     for enc in ENC_SETS[case['encs']]:
         for ext in exts_of(enc):
-            if client_accepts(parsed, enc):
-                cands.append((target + ext, enc))
+            if client_accepts(parsed, enc) and tparts:
+                cands.append((ov_resolve(tree, case, tparts[:-1] + [tparts[-1] + ext]), enc))
     return ('serve', [c for c in cands if tree.isfile(c[0])], [c[0] for c in cands if tree.isdir(c[0])])
 
 
 def oracle(case, got, tree):
-    """None, or {'detail':…, 'expected':…[, 'finding':…]}"""
+    """None, or {'detail':…, 'expected':…[, 'finding':…]}; F-C16g is classified here (narrowly)"""
+    v = oracle0(case, got, tree)
+    if v and not v.get('safety') and got.get('out') == 'valueerror' and win_absolute_name(case, tree):
+        v['finding'] = 'F-C16g'
+    return v
+
+
+def win_absolute_name(case, tree):
+    """F-C16g's class: a package-relative view and a resource name (docroot + normalised request segments, also below an
+    override prefix) that is absolute for Windows but not for POSIX - pkg_resources raises ValueError for those"""
+    import ntpath
+    if case['kind'] == 'fs':
+        return False
+    try:
+        if case['mount'] == 'direct':
+            segs = raw_tuple(case, tree)
+        else:
+            text = raw_path(case, tree).encode('latin-1').decode('utf-8')
+            if case['mount'] == 'sub':
+                text = text[len('/' + PREFIXES[case['kind']] + '/'):]
+            segs = normalise(text)
+    except UnicodeError:
+        return False
+    names = []
+    base = '/'.join(KIND_DROOT[case['kind']] + segs)
+    names.append(base)
+    for a, b in ov_pairs(tree, case):
+        path = a.split(':', 1)[1] if ':' in a else ''
+        if not b.startswith('/') and (path == '' or path.endswith('/')) and base.startswith(path):
+            names.append((b.split(':', 1)[1] if ':' in b else '') + base[len(path):])
+    bad = lambda n: (n.startswith('\\') or ntpath.isabs(n)) and not n.startswith('/')
+    return any(bad(n) or bad(n + '/' + INDEX) for n in names)
+
+
+def oracle0(case, got, tree):
     root = tree.root[case['kind']]
     out = got['out']
     # safety, whatever the input: the bytes served are those of a file strictly inside the root
     if out == 'file':
-        if got.get('sentinel'):
-            return {'detail': 'the response body contains the bytes of a sentinel file outside the root', 'expected': 'never', 'safety': True}
         p = got.get('path')
         if p is None:
-            return {'detail': 'the response body is not the content of any file of the tree', 'expected': 'a file of the root', 'safety': True}
-        if not p.startswith(root + '/') or not os.path.realpath(p).startswith(root + '/'):
-            return {'detail': 'a file outside the root was served: %r' % p, 'expected': 'a file inside %r' % root, 'safety': True}
+            return {'detail': 'the response body is not the content of any file of the tree%s' % (' (it contains sentinel bytes)' if got.get('sentinel') else ''),
+                    'expected': 'a file of the root', 'safety': True}
+        odirs, ofiles = ov_declared(tree, case)
+        if not (any(p.startswith(d + '/') and os.path.realpath(p).startswith(d + '/') for d in [root] + odirs) or p in ofiles):
+            return {'detail': 'a file outside the root%s was served%s: %r' % (' and outside every declared override' if case.get('ov') else '',
+                                                                             ' (sentinel bytes)' if got.get('sentinel') else '', p),
+                    'expected': 'a file inside %r' % ([root] + odirs + ofiles), 'safety': True}
     if case['mount'] == 'direct':
         segs, slash = raw_tuple(case, tree), case['slash']
         if not all(proper(s) for s in segs):
@@ -447,8 +565,9 @@ def oracle(case, got, tree):
             return {'detail': 'the designated file exists (and a variant the client accepts) but the answer is 404',
                     'expected': {'one of': ok}}
         return None
-    return {'detail': 'answer is neither 404, redirect nor the designated file: %s' % json.dumps(got, default=str)[:200],
-            'expected': {'one of': ok} if ok else {'out': 'notfound'}}
+    v = {'detail': 'answer is neither 404, redirect nor the designated file: %s' % json.dumps(got, default=str)[:200],
+         'expected': {'one of': ok} if ok else {'out': 'notfound'}}
+    return v
 
 
 # ------------------------------------------------------------------------------------------------
@@ -462,7 +581,7 @@ def model_case(case, tree):
             return {'op': 'np', 'a': codes(case['a']), 'b': codes(case['b'])}
         return {'op': 'secure', 'tuple': [codes(x) for x in case['tuple']]}
     from pyramid.static import _compile_content_encodings
-    _, view = get_app(tree, case['mount'], case['kind'], case['encs'])
+    _, view = get_app(tree, case['mount'], case['kind'], case['encs'], case.get('ov', 0))
     ce = view.content_encodings
     m = {'op': 'req', 'mount': case['mount'], 'pkg': bool(view.package_name), 'base': codes(tree.pkgdir),
          'docroot': codes(view.docroot if view.package_name else view.norm_docroot), 'index': codes(view.index),
@@ -473,6 +592,15 @@ def model_case(case, tree):
         m['slash'] = case['slash']
     else:
         m['path'] = codes(raw_path(case, tree))
+    ovs = []
+    for a, b in reversed(ov_pairs(tree, case)):            # most recent first
+        path = a.split(':', 1)[1] if ':' in a else ''
+        if b.startswith('/'):
+            ovs.append([codes(path), 'fs', codes(''), codes(b)])
+        else:
+            pk, _, pf = b.partition(':')
+            ovs.append([codes(path), 'pkg', codes(tree.T + '/' + pk), codes(pf)])
+    m['ovs'] = ovs if view.package_name == tree.pkgname else []
     return m
 
 
@@ -677,6 +805,64 @@ def gen_request(rng, tree, tree_id):
     return case
 
 
+OV_KINDS = ['pkg', 'pkgslash', 'pkgroot', 'pkgroot', 'pkgnested', 'rel', 'fs']
+OV_NAMES = ['file.txt', 'only-ov.txt', 'extra.txt', 'index.html', 'sub/a.css', 'sub/index.html', 'sub/', 'sub', '', 'single.css', 'big.txt',
+            'static/file.txt', 'static/', 'static', 'alt/file.txt', 'secret.txt', 'passwd', '__init__.py', 'static/passwd']
+OV_ATTACK = ['<T>/secret.txt', '/<T>/secret.txt', '<T>/ovdir2/secret.txt', '<T>/ovdirx', '<T>/<PKG2>/secret.txt', '<T>/ovdir/../secret.txt',
+             '../secret.txt', '../../secret.txt', '../ovdir2/secret.txt', '2/secret.txt', 'x', '.gz', '/etc/passwd', '//etc/passwd',
+             '\\x', '\\', 'C:/x', 'C:/', 'C:', 'c:\\w.txt', 'C:\\x/y', '%2f<T>/secret.txt', '..%2fsecret.txt', '..\\secret.txt', '<T>/ovdir/file.txt', '<T>/<PKG2>/alt/file.txt', '/<T>/ovdir/only-ov.txt']
+
+
+def kind_rel(kind, p):
+    """a path of the content layout, relative to the root of that kind (None when it is not below it)"""
+    if kind == 'pkgroot':
+        return 'static/' + p
+    if kind == 'pkgnested':
+        return p[4:] if p.startswith('sub/') else None
+    return p
+
+
+def gen_ovreq(rng, tree, tree_id):
+    """the override stream: every root kind x every override set, paths from the roots, the override sources and the attack list"""
+    case = gen_request(rng, tree, tree_id)
+    if case['mount'] == 'direct' and rng.random() < 0.8:
+        case = dict(case, mount=rng.choice(['sub', 'plain']))
+        if 'tuple' in case:
+            segs = case.pop('tuple'); case.pop('slash', None)
+            case['pieces'] = ['/' + PREFIXES[case['kind']] + '/' if case['mount'] == 'sub' else '/', wsgi('/'.join(segs))]
+            case['qs'] = ''
+    old = case['kind']
+    kind = rng.choice(OV_KINDS)
+    case['kind'] = kind
+    case['ov'] = rng.randrange(len(OV_SETS)) if case['mount'] != 'direct' else 0
+    if case['mount'] == 'direct':
+        return case
+    oldpfx, newpfx = '/' + PREFIXES[old] + '/', '/' + PREFIXES[kind] + '/'
+    pieces = [x.replace(oldpfx, newpfx) if i == 0 and case['mount'] == 'sub' else x for i, x in enumerate(case['pieces'])]
+    r = rng.random()
+    if r < 0.45:
+        # a name that matters for the overrides, clean or with one attack piece
+        name = rng.choice(OV_NAMES)
+        if kind == 'pkgroot' and rng.random() < 0.7 and not name.startswith('static'):
+            name = 'static/' + name
+        body = [wsgi(name)]
+        if rng.random() < 0.25:
+            body.insert(rng.randint(0, 1), rng.choice(ATTACK[:12]))
+        pieces = [pieces[0] if pieces else '/'] + body
+    elif r < 0.65:
+        pieces = [pieces[0] if pieces else '/', wsgi(rng.choice(OV_ATTACK))]
+    elif kind in ('pkgroot', 'pkgnested') and len(pieces) > 1 and rng.random() < 0.7:
+        rel = kind_rel(kind, rng.choice(inside_paths(tree)))
+        if rel:
+            pieces = [pieces[0], wsgi(rel)] + pieces[2:]
+    if pieces and case['mount'] == 'sub' and not pieces[0].startswith(newpfx[:-1]) and rng.random() < 0.8:
+        pieces[0] = newpfx
+    if rng.random() < 0.2:
+        pieces.append('/')
+    case['pieces'] = pieces
+    return case
+
+
 NP_PIECES = ['/', '/', '/', '//', '///', '.', '..', '..', 'a', 'bc', 'a.b', '...', '..a', '', '\\', ' ', '\u00fc', '~', '\x00', './', '../', '/.']
 
 
@@ -744,6 +930,19 @@ def exhaustive_np(maxlen):
             out.append({'op': 'np', 'a': '/r', 'b': ''.join(combo)})
     return out
 
+
+# regression witnesses of the repaired F-C16f (package-root spec + whole-package override from an absolute directory) and its
+# relatives; must behave as the property demands
+OV_WITNESSES = [
+    {'mount': 'sub', 'kind': 'pkgroot', 'tree': 0, 'encs': 0, 'ae': None, 'ov': 3, 'pieces': ['/s/', '<T>/secret.txt'], 'qs': ''},
+    {'mount': 'sub', 'kind': 'pkgroot', 'tree': 0, 'encs': 0, 'ae': None, 'ov': 3, 'pieces': ['/s/', '/etc/passwd'], 'qs': ''},
+    {'mount': 'plain', 'kind': 'pkgroot', 'tree': 0, 'encs': 0, 'ae': None, 'ov': 3, 'pieces': ['/', '<T>/ovdir2/secret.txt'], 'qs': ''},
+    {'mount': 'sub', 'kind': 'pkgroot', 'tree': 0, 'encs': 0, 'ae': None, 'ov': 3, 'pieces': ['/s/'], 'qs': ''},
+    {'mount': 'sub', 'kind': 'pkgroot', 'tree': 0, 'encs': 0, 'ae': None, 'ov': 1, 'pieces': ['/s/', 'static/file.txt'], 'qs': ''},
+    {'mount': 'sub', 'kind': 'pkgroot', 'tree': 0, 'encs': 0, 'ae': None, 'ov': 3, 'pieces': ['/s/', 'static/file.txt'], 'qs': ''},
+    {'mount': 'sub', 'kind': 'pkg', 'tree': 0, 'encs': 1, 'ae': 'gzip', 'ov': 7, 'pieces': ['/assets/v 1/', 'file.txt'], 'qs': ''},
+    {'mount': 'plain', 'kind': 'pkgslash', 'tree': 0, 'encs': 0, 'ae': None, 'ov': 5, 'pieces': ['/', 'file.txt'], 'qs': ''},
+]
 
 # witnesses of the OBSERVATIONS O-C16c/d/e of the configuration / URL side (as-built behaviour of static URL generation, outside
 # C16's statement; Props.C16 §5 witnesses), replayed on the real code in every run
@@ -1084,7 +1283,7 @@ def su_c16_back(case, got, tree):
         if su_is_url(n):
             continue
         pfx = pre + '/' + n.lstrip('/')
-        routes = [r for r in routes if r[0] != pfx] + [(pfx, su_spec_dir(tree, su_expand(tree, su_norm_spec(spec))))]
+        routes = [r for r in routes if r[0] != pfx] + [(pfx, su_spec_dir(tree, su_expand(tree, su_norm_spec(spec))), su_expand(tree, spec))]
     if back['out'] == 'file':
         roots = [r[1] for r in routes]
         if back.get('path') is None or not any(back['path'].startswith(r + '/') for r in roots):
@@ -1097,8 +1296,14 @@ def su_c16_back(case, got, tree):
     if not hit:
         exp, target = 'notfound', None
     else:
-        pfx, root = hit[0]
+        pfx, root, rspec = hit[0]
         segs = normalise(text[len(pfx):])
+        if back['out'] == 'valueerror' and not rspec.startswith('/') and ':' in rspec:
+            import ntpath
+            d = rspec.split(':', 1)[1].rstrip('/')
+            nm = (d + '/' if d else '') + '/'.join(segs)
+            if any((x.startswith('\\') or ntpath.isabs(x)) and not x.startswith('/') for x in (nm, nm + '/' + INDEX)):
+                return {'detail': 'way-back request %r raised ValueError in pkg_resources' % text, 'expected': {'out': 'notfound'}, 'finding': 'F-C16g'}
         if not all(proper(x) for x in segs):
             exp, target = 'notfound', None
         else:
@@ -1282,7 +1487,9 @@ def _run(ctx, rng):
     su_corpus = [c for c in cases if c.get('op') == 'su']
     cases = [c for c in cases if c.get('op') != 'su']
     su = su_corpus + SU_WITNESSES + [gen_su(rng, get_tree(0), 0) for _ in range(ctx.n(900, 12000))]
-    rows = evaluate(ctx, cases) + evaluate(ctx, ex) + evaluate(ctx, WITNESSES) + evaluate(ctx, su)
+    # root kinds x asset overrides (generated after everything else, for the same reason)
+    ovc = OV_WITNESSES + [gen_ovreq(rng, get_tree(0), 0) for _ in range(ctx.n(4000, 120000))]
+    rows = evaluate(ctx, cases) + evaluate(ctx, ex) + evaluate(ctx, WITNESSES) + evaluate(ctx, su) + evaluate(ctx, ovc)
     # second pass over the request cases in shuffled order: the view caches (filemap, lru_cache) must not matter
     again = [c for c in cases if 'op' not in c]
     first = {vfutil.canon(c): canon_impl(g) for c, g, _, _, _ in rows if 'op' not in c}
@@ -1295,7 +1502,8 @@ def _run(ctx, rng):
                          'detail': 'the answer depends on earlier requests (filemap / lru_cache)'})
     mism, viol, agree = [], list(hist), 0
     seen, nontriv = set(), set()
-    dist = {'mount': {}, 'kind': {}, 'outcome': {}, 'outcome_by_mount': {}, 'pieces': {}, 'accept_encoding': {}, 'served_encoding': {},
+    tree_root = lambda c: get_tree(c['tree']).root[c['kind']]
+    dist = {'overrides': {}, 'mount': {}, 'kind': {}, 'outcome': {}, 'outcome_by_mount': {}, 'pieces': {}, 'accept_encoding': {}, 'served_encoding': {},
             'content_encodings': {}, 'attack_pieces': {}, 'names_outside_root': 0, 'tuple_refused_by_secure_path': 0,
             'aux': {}, 'exhaustive_scope': {}, 'regression_witnesses': {}, 'static_url': {'answer': {}, 'registrations': {}, 'busters': {}, 'way_back': {},
                                                                                      'same_name_again': 0, 'boundary_sibling': 0, 'query': {}, 'observations': {}},
@@ -1332,6 +1540,10 @@ def _run(ctx, rng):
             bump(dist['aux'], c['op'])
             continue
         bump(dist['mount'], c['mount']); bump(dist['kind'], c['kind'])
+        if c.get('ov'):
+            bump(dist['overrides'], 'set %d' % c['ov'])
+            if got['out'] == 'file' and got.get('path') and not got['path'].startswith(tree_root(c) + '/'):
+                bump(dist['overrides'], 'served from an override source')
         bump(dist['outcome'], got['out'])
         bump(dist['outcome_by_mount'], c['mount'] + ':' + got['out'])
         bump(dist['content_encodings'], str(len(ENC_SETS[c['encs']])))
